@@ -79,6 +79,14 @@ Record sort_call := mkSort { so_file : string; so_line : nat; so_func : string; 
                              so_elems : sort_elems; so_what : string }.
 Record site := mkSite { s_file : string; s_line : nat; s_func : string; s_text : string }.
 
+(* (h) a call of synapgrad.empty (documented as uninitialised).  eu_initialised is computed by the translator (class EmptyAnalysis
+   of lib/py2coq/gen_census.py, guard-context rule): true only if the call sits in a constructor, its result is stored in the
+   attribute eu_attr of self, and an nn.init function that provably replaces .data completely is applied to that attribute after
+   the allocation, in the constructor or in a method it calls, under guards that are all facts of the allocation's own guard
+   context.  Anything the translator cannot establish is false (fail-safe, like Escape for sets).  eu_how: the event found, or
+   why none counts.                                                                                                              *)
+Record empty_use := mkEmptyUse { eu_file : string; eu_line : nat; eu_func : string; eu_attr : string; eu_initialised : bool; eu_how : string }.
+
 (* ======================================================================================================================== *)
 (* boolean checkers                                                                                                         *)
 Definition str_eqb (a b : string) : bool := if string_dec a b then true else false.
